@@ -228,7 +228,11 @@ class Impl:
 
     def op_new(self, s, cls, rem):
         K = dn.DynDiGraph if int(cls) else dn.DynGraph
-        self.slots[int(s)] = K(edge_removal=bool(int(rem)))
+        flag = bool(int(rem))
+        if _TNP:
+            import numpy as np
+            flag = np.bool_(flag)        # histories with numpy instants: the flag comes from a numpy table as well (a bool too)
+        self.slots[int(s)] = K(edge_removal=flag)
         return "ok"
 
     def op_add(self, s, u, v, t, e):
@@ -1129,8 +1133,11 @@ class Impl:
                     return "window-outside-the-ids-accepted"
                 except ValueError:
                     pass
-        return {"edges": sorted(edges), "src": sorted(self.occ(x) for x in src), "tgt": sorted(self.occ(x) for x in tgt),
-                "nodes": sorted(nodes, key=lambda z: (z[0], -10**9 if z[1] is None else z[1])), "acyclic": acyc}
+        res = {"edges": sorted(edges), "src": sorted(self.occ(x) for x in src), "tgt": sorted(self.occ(x) for x in tgt),
+               "nodes": sorted(nodes, key=lambda z: (z[0], -10**9 if z[1] is None else z[1])), "acyclic": acyc}
+        # what a call returns belongs to the caller: whatever the caller does with it must not show in a later answer
+        DG.add_edge("spoiled_0", "spoiled_1"); src.append("spoiled_0"); tgt.append("spoiled_1")
+        return res
 
     def _paths_out(self, res):
         if isinstance(res, list):
@@ -1218,9 +1225,14 @@ class Impl:
             fp = [tuple((a, b, t / 10.0) for a, b, t in q) for q in paths]
             if any(_paths.path_duration(q) != q[-1][-1] - q[0][-1] for q in fp):
                 return "path_duration-is-not-last-minus-first:fractional-instants"
-            md = min(q[-1][-1] - q[0][-1] for q in fp)
-            if set(tuple(q) for q in _paths.annotate_paths(fp)["fastest"]) != set(q for q in fp if q[-1][-1] - q[0][-1] == md):
-                return "fastest-is-not-the-minimal-duration-set:fractional-instants"
+            dur = lambda q: q[-1][-1] - q[0][-1]
+            arg = lambda key, among: [q for q in among if key(q) == min(key(z) for z in among)]
+            exp = {"shortest": arg(len, fp), "fastest": arg(dur, fp), "foremost": arg(lambda q: q[-1][-1], fp),
+                   "fastest_shortest": arg(dur, arg(len, fp)), "shortest_fastest": arg(len, arg(dur, fp))}
+            rf = _paths.annotate_paths(fp)
+            for crit, want in exp.items():
+                if set(tuple(q) for q in rf[crit]) != set(want):
+                    return "%s-is-not-the-optimal-set:fractional-instants" % crit
         out = {}
         for key in ("shortest", "fastest", "foremost", "fastest_shortest", "shortest_fastest"):
             out[key] = [[list(h) for h in p] for p in r[key]]
